@@ -265,7 +265,7 @@ def replay_committed(prop, mod, findings):
     d = os.path.join(ROOT, "replays", prop)
     out = []
     n = 0
-    if os.path.isdir(d):
+    if os.path.isdir(d) and not os.environ.get("VERIF_SKIP_REPLAYS"):
         for fn in sorted(os.listdir(d)):
             if not fn.endswith(".json"):
                 continue
@@ -411,8 +411,9 @@ def main(argv=None):
             "wall_s": round(wall, 2),
             "violations": nviol,
         }
-        os.makedirs(os.path.join(ROOT, "evidence"), exist_ok=True)
-        with open(os.path.join(ROOT, "evidence", f"{prop}.json"), "w") as f:
+        evdir = os.environ.get("VERIF_EVIDENCE_DIR") or os.path.join(ROOT, "evidence")
+        os.makedirs(evdir, exist_ok=True)
+        with open(os.path.join(evdir, f"{prop}.json"), "w") as f:
             json.dump(ev, f, indent=1, sort_keys=True)
             f.write("\n")
         for ln in lines:
